@@ -294,7 +294,10 @@ CLAIMED = {
              "runs with stale cache entries find every stable key and meet nothing never stored (concrete_finds_stable, "
              "concrete_sound). A stale cached parent read over the CURRENT database (raw level: traverse_from over rlp-decoded nodes) "
              "returns what the older version says or raises MissingTraversalNode naming the first absent child - never anything "
-             "else (stale_parent_truthful, from partial consistency of the database). Modelled not proved: the caller's reaction to "
+             "else (stale_parent_truthful); and after ANY history, pruning on or off, every earlier version is partially consistent with the "
+             "current database (earlier_versions_consistent, under the run-level premise that no two different nodes among the versions "
+             "of the run share a hash), so reading any earlier version through the current database is truthful-or-raises "
+             "(old_version_read_truthful). Modelled not proved: the caller's reaction to "
              "that exception (drop the entry, go from the root) - tied by running real walks with the real cache "
              "against the model, each whole step compared with cstep as one transition.",
         technique="Lean 4 proof (walk invariant over arbitrary schedules, well-founded measure) + correspondence check on real walks",
